@@ -1,5 +1,113 @@
-import Dagrt.Model.Controller
+import Dagrt.Proofs.ControllerProofs
+/-!
+# C04 — each step runs every statement of the phase once, after its dependencies
+
+Model: `Dagrt.Controller` (`Model/Controller.lean`) = `ExecutionController.reset /
+update_plan / __call__`.  Dependencies are iterated in an arbitrary (given) order, the
+target is an arbitrary function from statements to {guard false, executed (with any list of
+dynamically requested statements), abort}: the theorems therefore cover every iteration
+order of the dependency sets, every guard valuation, every abort point and every sequence
+of dynamic plan updates.  `WF g n r`: dependencies resolve within the phase and `r` is a
+rank function bounded by the number of statements — what `C10.accept_implies_consumers_safe`
+establishes for every accepted method.
+-/
 namespace Dagrt.C04
 open Dagrt.Controller
-theorem reset_empty : reset.plan = [] ∧ reset.executed = [] := ⟨rfl, rfl⟩
+
+/-- the plan invariant (no duplicates, disjoint from what was executed, every planned
+    statement has its dependencies executed or planned earlier) survives every plan update,
+    which never fails on a well-formed phase; requested statements end up executed or in the
+    new front part `e`, ahead of everything planned before -/
+theorem update_plan_preserves_invariant {g : Graph} {r : Nat → Nat} {n : Nat} (wf : WF g n r)
+    {s : St} (hi : Inv g s) (ids : List Nat) (hids : ∀ i ∈ ids, (g i).isSome) :
+    ∃ s' e, updatePlan g n s ids = .ok s' ∧ Inv g s' ∧ s'.executed = s.executed ∧
+      s'.plan = e ++ s.plan.filter (fun x => decide (x ∉ e)) ∧
+      (∀ i ∈ ids, i ∈ s.executed ∨ i ∈ e) :=
+  updatePlan_inv wf hi ids hids
+
+/-- the statement about to be visited has all its dependencies visited, and was not visited before -/
+theorem popped_statement_ready {g : Graph} {x : Nat} {rest ex : List Nat}
+    (hi : Inv g { plan := x :: rest, executed := ex }) :
+    Inv g { plan := rest, executed := x :: ex } ∧ (∀ d ∈ depsOf g x, d ∈ ex) ∧ x ∉ ex :=
+  pop_inv hi
+
+/-- with the phase's sinks as roots, the initial plan contains every statement -/
+theorem initial_plan_complete {g : Graph} {r : Nat → Nat} {n : Nat} (wf : WF g n r) (roots : List Nat)
+    (hk : ∀ i ∈ roots, (g i).isSome)
+    (hsinks : ∀ i, (g i).isSome → (∀ j, i ∉ depsOf g j) → i ∈ roots) :
+    ∃ s0, updatePlan g n reset roots = .ok s0 ∧ Inv g s0 ∧ s0.executed = [] ∧
+      ∀ i, (g i).isSome → i ∈ s0.plan :=
+  initial_plan wf roots hk hsinks
+
+/-- One whole step, for every guard valuation / abort point / sequence of dynamic requests
+    (`target`) and every iteration order: the controller never fails, the visit log has no
+    duplicates, every statement is visited only after all statements it depends on, and — when
+    nothing aborts the step and the roots include the sinks — every statement of the phase is
+    visited (exactly once) and the plan is empty at the end. -/
+theorem visit_once_deps_first {g : Graph} {r : Nat → Nat} {n : Nat} (wf : WF g n r)
+    (hn : ∀ i, (g i).isSome ↔ i < n)
+    (roots : List Nat) (hk : ∀ i ∈ roots, (g i).isSome)
+    (hsinks : ∀ i, (g i).isSome → (∀ j, i ∉ depsOf g j) → i ∈ roots)
+    (target : Nat → Action)
+    (htarget : ∀ x req, target x = .run req → ∀ i ∈ req, (g i).isSome) :
+    ∃ log s', step g n roots target = .ok (log, s') ∧ LogOK g log ∧
+      ((∀ x, target x ≠ .abort) → s'.plan = [] ∧ ∀ i, i < n → i ∈ log) := by
+  obtain ⟨s0, hok, hinv, hex, hall⟩ := initial_plan wf roots hk hsinks
+  unfold step
+  rw [hok]
+  simp only
+  have hloop : LoopInv g n (List.range n) s0 [] := by
+    refine ⟨hinv, by intro x; simp [hex], ⟨by simp, depsFirst_nil _ _⟩, by simp, ?_⟩
+    intro i hi; left; simp at hi; exact hall i ((hn i).mpr hi)
+  obtain ⟨log', s', hrun, hinv', _, hfin⟩ := runLoop_spec wf target htarget (List.range n) (n + 1) s0 [] hloop
+  refine ⟨log', s', hrun, hinv'.logOK, ?_⟩
+  intro hna
+  have hp := hfin hna (by simp) (fun i hi => (hn i).mp hi)
+  refine ⟨hp, ?_⟩
+  intro i hi
+  rcases hinv'.cover i (by simp [hi]) with h | h
+  · rw [hp] at h; simp at h
+  · exact h
+
+/-- a step that is cut short (failure, switch, error) still visits only a duplicate-free,
+    dependency-closed prefix order: `LogOK` holds for every target, aborting or not -/
+theorem abort_prefix {g : Graph} {r : Nat → Nat} {n : Nat} (wf : WF g n r)
+    (roots : List Nat) (hk : ∀ i ∈ roots, (g i).isSome)
+    (target : Nat → Action)
+    (htarget : ∀ x req, target x = .run req → ∀ i ∈ req, (g i).isSome) :
+    ∃ log s', step g n roots target = .ok (log, s') ∧ LogOK g log := by
+  obtain ⟨s0, e, hok, hinv, hex, _, _⟩ := updatePlan_inv wf (reset_inv g) roots hk
+  unfold step
+  rw [hok]
+  simp only
+  have hloop : LoopInv g n [] s0 [] :=
+    ⟨hinv, by intro x; simp [hex, reset], ⟨by simp, depsFirst_nil _ _⟩, by simp, by simp⟩
+  obtain ⟨log', s', hrun, hinv', _, _⟩ := runLoop_spec wf target htarget [] (n + 1) s0 [] hloop
+  exact ⟨log', s', hrun, hinv'.logOK⟩
+
+/-! non-vacuity: a diamond with a dynamic request, iteration order ≠ id order -/
+def exG : Graph := fun i => [[], [0], [0], [2, 1]][i]?
+def exTarget : Nat → Action := fun i => if i = 0 then .run [3] else if i = 1 then .skip else .run []
+example : step exG 4 [3] exTarget = .ok ([0, 2, 1, 3], { plan := [], executed := [3, 1, 2, 0] }) := by decide
+example : WF exG 4 (fun i => i) := by
+  refine ⟨?_, ?_, ?_⟩
+  · intro i hi d hd
+    match i with
+    | 0 => simp [depsOf, exG] at hd
+    | 1 => simp [depsOf, exG] at hd; subst hd; simp [exG]
+    | 2 => simp [depsOf, exG] at hd; subst hd; simp [exG]
+    | 3 => simp [depsOf, exG] at hd; rcases hd with h | h <;> subst h <;> simp [exG]
+    | k+4 => simp [exG] at hi
+  · intro i d hd
+    match i with
+    | 0 => simp [depsOf, exG] at hd
+    | 1 => simp [depsOf, exG] at hd; omega
+    | 2 => simp [depsOf, exG] at hd; omega
+    | 3 => simp [depsOf, exG] at hd; omega
+    | k+4 => simp [depsOf, exG] at hd
+  · intro i hi
+    match i with
+    | 0 | 1 | 2 | 3 => omega
+    | k+4 => simp [exG] at hi
+
 end Dagrt.C04
